@@ -20,7 +20,11 @@
   exactly at each requested time, sub-stepping included"): the clamp of the dynamic mode
   `if (dt > te - t - o.minimal_time_step) dt = te - t;` uses `max(o.minimal_time_step, 0)`: the option is
   `-1` when unset, which lets the unfixed code overshoot `te` by up to one time unit
-  (patches/C48-GenericSolver-dynamic-clamp.diff).
+  (patches/C48-GenericSolver-dynamic-clamp.diff); and the tolerance of the end-of-step test
+  `std::abs(te - t) < t_eps` is relative to the magnitude of the times, `max(|ti|, |te|, te - ti)`, where the
+  unfixed source uses `te - ti` alone, which the rounding of `t += dt` exceeds as soon as `|t|` is about a
+  hundred times the step: a sub-stepped step then runs one sub-step past `te`
+  (patches/C48-GenericSolver-end-tolerance.diff).
 -/
 namespace TfelVerif.C48
 
@@ -203,7 +207,11 @@ def loop (C : Consts α) (o : Opts α) (te tEps : α) : List (Answer α) → Loo
         | .inr (s', true) => .ended s'
         | .inr (s', false) => loop C o te tEps rs s'
 
-def tEpsOf (C : Consts α) (ti te : α) : α := (te - ti) * C.hundred * C.eps
+/-- tolerance of the end-of-step test. INTENDED: relative to the magnitude of the times (the rounding
+errors of `t += dt` are), where the unfixed source writes `(te - ti) * 100 * epsilon`
+(patches/C48-GenericSolver-end-tolerance.diff) -/
+def tEpsOf (C : Consts α) (ti te : α) : α :=
+  cmax (cmax (C.abs ti) (C.abs te)) (te - ti) * C.hundred * C.eps
 
 def initState (C : Consts α) (ti te : α) : LoopState α :=
   { t := ti, dt := te - ti, subStep := 0, period := 1, iters := 0, dt_1 := C.zero, log := [] }
